@@ -743,7 +743,9 @@ func (vc *VC) newFrame(fi *FuncInfo, ct *Contract) *frame {
 			return true
 		})
 		fr.stmtOrd = map[ast.Stmt]int{}
+		fr.stmtKey = map[ast.Stmt]string{}
 		n := 0
+		seen := map[string]int{}
 		ast.Inspect(fi.Decl.Body, func(nd ast.Node) bool {
 			if _, isLit := nd.(*ast.FuncLit); isLit {
 				return false
@@ -752,6 +754,15 @@ func (vc *VC) newFrame(fi *FuncInfo, ct *Contract) *frame {
 				if _, isBlock := st.(*ast.BlockStmt); !isBlock {
 					n++
 					fr.stmtOrd[st] = n
+					// text key: the statement's first source line (a compound statement's header), white
+					// space collapsed; the k-th statement with the same text gets the suffix #k (k > 1)
+					txt := StmtText(vc.P, st)
+					seen[txt]++
+					key := "stmt[" + txt + "]"
+					if seen[txt] > 1 {
+						key = fmt.Sprintf("stmt[%s]#%d", txt, seen[txt])
+					}
+					fr.stmtKey[st] = key
 				}
 			}
 			return true
@@ -971,7 +982,12 @@ func (vc *VC) applyHints(fr *frame, st *State, label string) {
 			vc.applyLemma(fr, st, h.Cl)
 		case "assert":
 			g := vc.evalClause(fr, st, vc.oldState(), h.Cl, nil)
-			vc.oblige(st, "assert", label, fr.specPos, g, h.Cl.Text)
+			nm := label
+			if vc.hintName != "" {
+				// text-keyed statement hints are NAMED by the statement's ordinal (compact, no spaces)
+				nm = vc.hintName
+			}
+			vc.oblige(st, "assert", nm, fr.specPos, g, h.Cl.Text)
 			vc.assume(st, g)
 		case "assume":
 			vc.errorf(fr.specPos, "assume hints are not allowed (%s)", h.Cl.Text)
@@ -1239,4 +1255,29 @@ func (vc *VC) resolveRecv(st *State, impl types.Type, m *types.Func, payload Ter
 		return ref, true
 	}
 	return nil, false
+}
+
+// StmtText is the normalised source text that identifies a statement in `at stmt[...]:` hints.
+func StmtText(p *Prog, st ast.Stmt) string {
+	pos := p.Fset.Position(st.Pos())
+	end := p.Fset.Position(st.End())
+	src, err := os.ReadFile(pos.Filename)
+	if err != nil || pos.Offset >= len(src) {
+		return ""
+	}
+	e := end.Offset
+	if e > len(src) {
+		e = len(src)
+	}
+	txt := string(src[pos.Offset:e])
+	if i := strings.IndexByte(txt, '\n'); i >= 0 {
+		txt = txt[:i]
+	}
+	switch st.(type) {
+	case *ast.IfStmt, *ast.ForStmt, *ast.RangeStmt, *ast.SwitchStmt, *ast.TypeSwitchStmt, *ast.CaseClause:
+		if i := strings.LastIndexByte(txt, '{'); i >= 0 {
+			txt = txt[:i]
+		}
+	}
+	return strings.Join(strings.Fields(txt), " ")
 }
